@@ -107,6 +107,26 @@ def wf_wait(requirements: bool) -> Any:
     return make_workflow("Wait", [make_step("ask", [StartEvent], [StopEvent], ask)])
 
 
+def wf_fail() -> Any:
+    async def bad(self, ctx, ev, inv):  # noqa: ANN001
+        await gate("bad")
+        raise ValueError("bad always fails")
+
+    return make_workflow("Fail", [make_step("bad", [StartEvent], [StopEvent], bad)])
+
+
+def wf_cancellable() -> Any:
+    async def first(self, ctx, ev, inv):  # noqa: ANN001
+        await gate("first")
+        return Work(uid=1)
+
+    async def work(self, ctx, ev, inv):  # noqa: ANN001
+        await gate("work")
+        return StopEvent(result="work:done")
+
+    return make_workflow("Cancellable", [make_step("first", [StartEvent], [Work], first), make_step("work", [Work], [StopEvent], work)])
+
+
 PROGRAMS: dict[str, dict[str, Any]] = {
     "chain": {"make": wf_chain, "expected": "chain:2", "responses": []},
     "fanin": {"make": wf_fanin, "expected": "fanin:10,20", "responses": []},
@@ -114,6 +134,9 @@ PROGRAMS: dict[str, dict[str, Any]] = {
     "recover": {"make": wf_recover, "expected": "recovered:s1:ValueError", "responses": []},
     "wait": {"make": lambda: wf_wait(False), "expected": "wait:any:100", "responses": [("any", 100)]},
     "wait_requirements": {"make": lambda: wf_wait(True), "expected": "wait:good:101", "responses": [("bad", 100), ("good", 101)]},
+    # runs that end otherwise than by a StopEvent: the persisted end must be finalized with the matching status
+    "fail": {"make": wf_fail, "expected": None, "expected_status": "failed", "responses": []},
+    "cancel": {"make": wf_cancellable, "expected": "work:done", "responses": [], "cancel": True},
 }
 
 
@@ -136,9 +159,13 @@ def _handler(loop: VLoop, store: Any) -> Any:
     return t.result()
 
 
-def _is_terminal_tick(td: dict[str, Any]) -> bool:
+def _is_terminal_tick(td: dict[str, Any], pname: str = "") -> bool:
+    if td.get("type") == "cancel_run":
+        return True
     if td.get("type") != "step_result":
         return False
+    if pname == "fail" and any(r.get("type") == "failed" for r in td.get("result", [])):
+        return True  # no retry policy, no handler: the failure ends the run
     for r in td.get("result", []):
         if r.get("type") == "result" and isinstance(r.get("result"), dict) and "StopEvent" in str(r["result"].get("qualified_name", "")):
             return True
@@ -189,6 +216,8 @@ def execute(ex: Execution, pname: str, backend: str, crash_at: int | None) -> tu
                     e.loop.create_task(stack.service.send_event("h1", Resp(uid=uid, key=key)))
 
                 e.add_script([Action(f"send Resp({key})#{uid}", _send)])
+            if prog.get("cancel"):
+                e.add_script([Action("cancel h1", lambda: e.loop.create_task(stack.service.cancel_handler("h1")))])
             e.drive()
         except sh.Crash:
             crashed = True
@@ -214,7 +243,7 @@ def execute(ex: Execution, pname: str, backend: str, crash_at: int | None) -> tu
     obs: dict[str, Any] = {}
     with EngineExec(ex, RunConfig(max_actions=120, allow_time=False), loop=loop2) as e2:
         ticks = _persisted_ticks(loop2, store2, "run1")
-        ended = any(_is_terminal_tick(td) for td in ticks)
+        ended = any(_is_terminal_tick(td, pname) for td in ticks)
         if crashed:
             stack2 = sh.Stack(store2, idle_timeout=10_000.0)
             wf2 = prog["make"]()(timeout=None)
@@ -225,6 +254,9 @@ def execute(ex: Execution, pname: str, backend: str, crash_at: int | None) -> tu
                     # the client saw no effect of its event before the crash: it sends it again after the restart
                     e2.add_script([Action(f"resend Resp({key})#{uid}", (lambda key=key, uid=uid: e2.loop.create_task(
                         stack2.service.send_event("h1", Resp(uid=uid, key=key)))))])
+            if prog.get("cancel") and not any(td.get("type") == "cancel_run" for td in ticks):
+                # the client's cancel request had no durable effect before the stop: it is sent again
+                e2.add_script([Action("cancel h1 again", lambda: e2.loop.create_task(stack2.service.cancel_handler("h1")))])
             e2.drive()
         h = _handler(loop2, store2)
         status = h.status if h is not None else None
@@ -236,7 +268,7 @@ def execute(ex: Execution, pname: str, backend: str, crash_at: int | None) -> tu
         persisted_adds = sum(1 for td in ticks if td.get("type") == "add_event")
         last = ticks[-1] if ticks else {}
         lost = "none"
-        if last.get("type") == "step_result" and not _is_terminal_tick(last) and any(
+        if last.get("type") == "step_result" and not _is_terminal_tick(last, pname) and any(
                 (r.get("type") == "result" and r.get("result") is not None) or r.get("type") == "failed" for r in last.get("result", [])):
             lost = "step_output_not_yet_queued"
         elif sent_add_events > persisted_adds:
@@ -248,10 +280,18 @@ def execute(ex: Execution, pname: str, backend: str, crash_at: int | None) -> tu
               "nonmatching_response_in_log": nonmatching_in_log}
         desc = (f"[{backend}] {pname}: process stopped after persisted tick {crash_at} (a {last.get('type')} tick) "
                 f"({[t.get('type') for t in ticks][-3:]} ...), restarted; schedule {ex.labels}")
-        if status != "completed" or result != prog["expected"]:
-            kind = "stays_running" if status == "running" else ("wrong_result" if status == "completed" else f"ends_{status}")
+        want_status, want_result = prog.get("expected_status", "completed"), prog["expected"]
+        if prog.get("cancel"):
+            # whichever end was accepted first (in the final tick log) decides
+            final_ticks = _persisted_ticks(loop2, store2, "run1")
+            first_end = next((td for td in final_ticks if _is_terminal_tick(td, pname)), None)
+            if first_end is not None and first_end.get("type") == "cancel_run":
+                want_status, want_result = "cancelled", None
+            wk["end_in_log_at_crash"] = next((td.get("type") for td in ticks if _is_terminal_tick(td, pname)), None)
+        if status != want_status or result != want_result:
+            kind = "stays_running" if status == "running" else ("wrong_result" if status == want_status else f"ends_{status}")
             v.append(("resumed_run_differs_from_uninterrupted", {**wk, "kind": kind},
-                      f"{desc}: handler status={status} result={result!r} error={getattr(h, 'error', None)!r}; uninterrupted result {prog['expected']!r}"))
+                      f"{desc}: handler status={status} result={result!r} error={getattr(h, 'error', None)!r}; expected status={want_status} result={want_result!r}"))
         elif ended and crashed and bodies2:
             v.append(("finished_run_re_executed", wk, f"{desc}: the persisted ticks already ended the run but steps ran again: {bodies2}"))
     return obs, v
@@ -272,8 +312,8 @@ def programs(tier: str) -> list[Program]:
     return ps
 
 
-RULE = ("6 deterministic workflows (3-step chain, fan-out/fan-in with collect_events, zero-delay retries, catch_error recovery, waiter + "
-        "external response without / with requirements) on the real server stack over MemoryWorkflowStore (instance survives) and "
+RULE = ("8 deterministic workflows (3-step chain, fan-out/fan-in with collect_events, zero-delay retries, catch_error recovery, waiter + "
+        "external response without / with requirements, a step failure that ends the run, a run cancelled by the client at any point) on the real server stack over MemoryWorkflowStore (instance survives) and "
         "SqliteWorkflowStore (file survives) x process stop right after the k-th persisted tick for every k up to the length of the log "
         "x a fresh stack resuming through PersistenceDecorator.launch() x all schedules of both phases within the deviation bound; the "
         "resumed handler must end completed with the uninterrupted result, and a log that already contains the terminal tick must be "
